@@ -119,6 +119,7 @@ type Result struct {
 	Env          []string   `json:"env,omitempty"`
 	HelperErr    string     `json:"helper_err,omitempty"`
 	StdinIsHost  bool       `json:"stdin_is_host"`
+	StdinSeen    string     `json:"stdin_seen,omitempty"` // what a real child read from its stdin (env:cmdstdin)
 	SocketDir    string     `json:"socket_dir,omitempty"`
 }
 
@@ -855,6 +856,18 @@ func RunCell(c *Cell) (res *Result) {
 					}
 				}
 			}
+			if arg == "cmdstdin" {
+				// command launch from a Cmd whose Stdin the application had preset: the child still gets the HOST's stdin
+				// (here a file with known content), which it copies to a dump file
+				hf := filepath.Join(c.Dir, "host-stdin")
+				os.WriteFile(hf, []byte("HOST-STDIN"), 0o644)
+				if f, err := os.Open(hf); err == nil {
+					os.Stdin = f
+				}
+				cfg.RunnerFunc = nil
+				cfg.Cmd = exec.Command("/bin/sh", "-c", "/usr/bin/env -0 > "+dump+"; cat > "+dump+".stdin; echo not-a-plugin; exit 0")
+				cfg.Cmd.Stdin = strings.NewReader("PRESET-BY-THE-APPLICATION")
+			}
 			if arg == "reuseok" {
 				// the same *ClientConfig first starts a real plugin successfully (a version is negotiated) ...
 				capture := cfg.RunnerFunc
@@ -872,8 +885,12 @@ func RunCell(c *Cell) (res *Result) {
 			}
 			cl := plugin.NewClient(cfg)
 			cl.Start()
+			if arg == "cmdstdin" {
+				b, _ := os.ReadFile(dump + ".stdin")
+				res.StdinSeen = string(b)
+			}
 			switch arg {
-			case "cmd":
+			case "cmd", "cmdstdin":
 				if b, err := os.ReadFile(dump); err == nil {
 					for _, kv := range strings.Split(string(b), "\x00") {
 						if kv != "" {
